@@ -86,6 +86,11 @@ func (a *Analyzer) onStateChange(n *nodeState, r *ev.Rec) {
 		a.sample("election", fmt.Sprintf("%s leader of term %d with %d/%d grants produced (%s)", n.key, st.Term, got, len(vs), cfgString(cfg)))
 		if got < majority(len(vs)) && !a.isWire(n.key.nid) {
 			a.find("C01", "leader-without-majority-of-grants", "", r.Q, "%s becomes leader of term %d with %d grants produced by voters of %s (needs %d)", n.key, st.Term, got, cfgString(cfg), majority(len(vs)))
+			if a.elXfer[[3]uint64{n.key.cid, n.key.nid, st.Term}] {
+				// the same fact seen from the transfer property: a designated
+				// successor must win a real election
+				a.find("C16", "transfer-target-elected-without-majority", "", r.Q, "%s, told to time out now, becomes leader of term %d with %d grants produced by voters of %s (needs %d)", n.key, st.Term, got, cfgString(cfg), majority(len(vs)))
+			}
 		}
 		// C11
 		if (cfg == nil || !cfg.IsVoter(n.key.nid)) && !a.isWire(n.key.nid) {
